@@ -768,6 +768,106 @@ def gen_ffi_tables(repo):
     funcs += 'Definition ctor_plumbing : list (string * string * string * string) := [\n' + ';\n'.join(
         f'  ({coq_str(a)}, {coq_str(b)}, {coq_str(c)}, "{d.replace(chr(34), chr(34) * 2)}")' for a, b, c, d in plumbing) + '\n].\n\n'
 
+    # ------------------------------------------------------------------ TLS configuration conversions (client.rs TryFrom<ffi::TlsClientConfig>, server.rs server_create_tls_impl)
+    def nows(x):
+        return ''.join(x.split())
+
+    def statements(body):
+        return [st for st in rp.split_top(body, ';') if st.strip()]
+
+    def opt_rule_of(rhs):
+        """classify `match <s> { "" => None, x => Some(x) }`"""
+        t = nows(rhs)
+        mo = re.fullmatch(r'match(.+?)\{""=>None,(\w+)=>Some\(\2\),?\}', t)
+        return ('NoneIfEmpty ' + coq_str(mo.group(1))) if mo else ('OtherRule ' + coq_str(t))
+
+    def and_split(cond):
+        parts, depth, cur, k = [], 0, '', 0
+        while k < len(cond):
+            ch = cond[k]
+            depth += ch in '(['
+            depth -= ch in ')]'
+            if depth == 0 and cond.startswith('&&', k):
+                parts.append(cur)
+                cur, k = '', k + 2
+                continue
+            cur += ch
+            k += 1
+        parts.append(cur)
+        return [nows(x) for x in parts]
+
+    mt = re.search(r'impl\s+TryFrom<ffi::TlsClientConfig>\s+for\s+rodbus::client::TlsClientConfig\s*\{', fclient)
+    if not mt:
+        raise ParseError('client.rs: impl TryFrom<ffi::TlsClientConfig> not found')
+    timpl = fclient[mt.end():matching(fclient, mt.end() - 1, '{', '}') - 1]
+    tbody = body_of(timpl, r'fn\s+try_from\s*\(', 'client.rs TryFrom<ffi::TlsClientConfig>::try_from')
+    tls_lets, pw_rule = [], None
+    for st in statements(tbody):
+        ml = re.match(r'\s*let\s+(\w+)\s*=\s*(.+)$', st, re.S)
+        if not ml or ml.group(1) == 'config':
+            continue
+        if ml.group(1) == 'optional_password':
+            pw_rule = opt_rule_of(ml.group(2))
+        else:
+            tls_lets.append((ml.group(1), nows(ml.group(2))))
+    if pw_rule is None:
+        raise ParseError('client.rs TryFrom<ffi::TlsClientConfig>: no `let optional_password`')
+    mm = re.search(r'match\s+value\s*\.\s*certificate_mode\s*\(\s*\)\s*\{', tbody)
+    if not mm:
+        raise ParseError('client.rs TryFrom<ffi::TlsClientConfig>: no `match value.certificate_mode()`')
+    marms = rp.match_arms(tbody[mm.end():matching(tbody, mm.end() - 1, '{', '}') - 1])
+    ctor_rows, name_rule = [], None
+    for pat, expr in marms:
+        mode = re.fullmatch(r'ffi::CertificateMode::(\w+)', nows(pat))
+        if not mode:
+            raise ParseError(f'client.rs TryFrom<ffi::TlsClientConfig>: arm {pat}')
+        inner = expr[1:-1] if expr.startswith('{') else expr
+        mc = re.search(r'rodbus::client::TlsClientConfig::(\w+)\s*\(', inner)
+        if not mc:
+            raise ParseError(f'client.rs TryFrom<ffi::TlsClientConfig>: arm {mode.group(1)} calls no TlsClientConfig constructor')
+        cargs = [nows(a) for a in rp.split_top(inner[mc.end():matching(inner, mc.end() - 1, '(', ')') - 1]) if a.strip()]
+        ctor_rows.append((mode.group(1), mc.group(1), cargs))
+        if 'expected_subject_name' in cargs:
+            rhs = [nows(x.group(1)) for x in re.finditer(r'let\s+expected_subject_name\s*=\s*(.+?);', inner[:mc.start()], re.S)]
+            mi = re.fullmatch(r'if(.+)\{None\}else\{Some\(expected_subject_name\.to_string\(\)\)\}', rhs[1]) if len(rhs) == 2 else None
+            if len(rhs) == 2 and rhs[0] == 'value.dns_name().to_str()?' and mi:
+                # the condition keeps its spaces until split
+                raw = re.search(r'let\s+expected_subject_name\s*=\s*if\s+(.+?)\s*\{\s*None', inner, re.S).group(1)
+                name_rule = 'NoneIf ' + coq_str(rhs[0]) + ' [' + '; '.join(coq_str(c) for c in and_split(raw)) + ']'
+            else:
+                name_rule = 'OtherRule ' + coq_str(';'.join(rhs))
+    if name_rule is None:
+        raise ParseError('client.rs TryFrom<ffi::TlsClientConfig>: no constructor takes `expected_subject_name`')
+    funcs += ('(* client.rs impl TryFrom<ffi::TlsClientConfig> (rodbus_client_channel_create_tls), whitespace removed.\n'
+              '   opt_rule: how an Option argument of the Rust constructor is derived from a C string:\n'
+              '     NoneIfEmpty src          match src { "" => None, x => Some(x) }\n'
+              '     NoneIf src conjuncts     let x = src; if c1 && c2 && .. { None } else { Some(x.to_string()) }\n'
+              '     OtherRule text           anything else *)\n')
+    funcs += 'Inductive opt_rule := NoneIfEmpty (src : string) | NoneIf (src : string) (conjuncts : list string) | OtherRule (e : string).\n'
+    funcs += f'Definition tls_client_password : opt_rule := {pw_rule}.\n'
+    funcs += f'Definition tls_client_name : opt_rule := {name_rule}.\n'
+    funcs += '(* the other locals: (name, defining expression) *)\n'
+    funcs += 'Definition tls_client_lets : list (string * string) := [' + '; '.join(f'({coq_str(a)}, {coq_str(b)})' for a, b in tls_lets) + '].\n'
+    funcs += '(* per certificate mode: the TlsClientConfig constructor called and its arguments *)\n'
+    funcs += 'Definition tls_client_ctors : list (string * string * list string) := [\n' + ';\n'.join(
+        f'  ({coq_str(a)}, {coq_str(b)}, [' + '; '.join(coq_str(x) for x in c) + '])' for a, b, c in ctor_rows) + '\n].\n'
+    sbody = body_of(fserver, r'#\[cfg\(feature\s*=\s*"enable-tls"\)\]\s*#\[allow\(clippy::too_many_arguments\)\]\s*pub\(crate\)\s+unsafe\s+fn\s+server_create_tls_impl\s*\(', 'server.rs server_create_tls_impl')
+    s_lets, s_pw = [], None
+    for st in statements(sbody):
+        ml = re.match(r'\s*let\s+(\w+)\s*=\s*(.+)$', st, re.S)
+        if ml and ml.group(1) == 'optional_password':
+            s_pw = opt_rule_of(ml.group(2))
+        elif ml and ml.group(1) == 'password':
+            s_lets.append(('password', nows(ml.group(2))))
+    msc = re.search(r'TlsServerConfig::new\s*\(', sbody)
+    if s_pw is None or not msc:
+        raise ParseError('server.rs server_create_tls_impl: no `let optional_password` or no TlsServerConfig::new')
+    sargs = [nows(a) for a in rp.split_top(sbody[msc.end():matching(sbody, msc.end() - 1, '(', ')') - 1]) if a.strip()]
+    funcs += '(* server.rs server_create_tls_impl (rodbus_server_create_tls / _with_authz): password rule, its local, the arguments of TlsServerConfig::new *)\n'
+    funcs += f'Definition tls_server_password : opt_rule := {s_pw}.\n'
+    funcs += 'Definition tls_server_lets : list (string * string) := [' + '; '.join(f'({coq_str(a)}, {coq_str(b)})' for a, b in s_lets) + '].\n'
+    funcs += 'Definition tls_server_ctor_args : list string := [' + '; '.join(coq_str(x) for x in sargs) + '].\n\n'
+
     out = 'Local Open Scope string_scope.\n\n' + en.render() + funcs
     out += '(* every conversion table: (Coq function, source enum, target enum) *)\n'
     out += 'Definition conversion_tables : list string := [' + '; '.join(coq_str(t[0]) for t in tables) + '].\n'
